@@ -29,10 +29,6 @@ def cssInherited : List String :=
    "text_align_last", "text_indent", "text_transform", "text_underline_offset", "visibility", "white_space",
    "widows", "word_break", "word_spacing"]
 
-/-- Deviations of the code from `cssInherited` that are recorded findings (`known_findings.txt`):
-`image-orientation` is "Inherited: yes" (css-images-3 §5.2) and is not in `INHERITED`. -/
-def knownInheritanceDeviations : List String := ["image_orientation"]
-
 /-- Is the property inherited, as CSS defines it? -/
 def specInherits (key : String) : Bool := cssInherited.contains key
 
